@@ -29,6 +29,7 @@ def run(ctx):
         history_rules.seek_first(ctx, prog, "R2")
         page_rules.formulas(ctx, prog, "R2", side="reader")
         history_rules.private_state(ctx, prog, "R3")
+        history_rules.reader_state_inventory(ctx, prog, "R3")
         cache_rules.who_may_write(ctx, prog, cache_rules.PR, rule="R4")
         cache_rules.invalidate_on_clobber(ctx, prog, cache_rules.PR, rule="R4")
         cache_rules.validate_before_publish(ctx, prog, cache_rules.PR, "table" if cfg == "lib" else "crate", rule="R4")
